@@ -121,6 +121,7 @@ type VC struct {
 	fpredUses    []*PredSpec
 	alias        map[string]string // symbol -> the symbol it is a copy of
 	keepHeaps    map[string]bool // storages surviving the havoc in progress
+	discHavocs   []havocRec      // whole-heap havocs seen by the loop discovery pass in progress
 	preserveSelf map[string]bool // storages the function under verification promises to preserve
 	declLog  []string
 	obls     []*Obligation
@@ -443,12 +444,19 @@ func (vc *VC) get(name, sort string) string {
 // ensureSorts declares the opaque sorts mentioned in a sort expression that
 // was remembered from another function's translation.
 func (vc *VC) ensureSorts(sort string) {
-	if !strings.Contains(sort, "O_") {
+	if !strings.Contains(sort, "O_") && !strings.Contains(sort, "S_") {
 		return
 	}
 	for _, tok := range strings.FieldsFunc(sort, func(r rune) bool { return r == '(' || r == ')' || r == ' ' }) {
 		if strings.HasPrefix(tok, "O_") && !vc.declared[tok] {
 			vc.declare(tok, "(declare-sort "+tok+" 0)")
+		}
+		if strings.HasPrefix(tok, "S_") && !vc.declared[tok] {
+			if t, ok := vc.p.structTypes[tok]; ok {
+				if st, isStruct := t.Underlying().(*types.Struct); isStruct {
+					vc.structSort(t, st)
+				}
+			}
 		}
 	}
 }
@@ -893,4 +901,12 @@ func (vc *VC) canon(t string) string {
 		t = a
 	}
 	return t
+}
+
+// havocRec describes one whole-heap havoc met while discovering what a loop
+// body modifies: whether ghost state survived it and which storages the
+// callee promised to preserve.
+type havocRec struct {
+	keepGhost bool
+	keep      map[string]bool
 }
